@@ -189,6 +189,8 @@ fn replay(beh: &Value, input: &str, cap: usize, ents: &[(String, usize)], fin: &
     let mut receivers: Vec<Receiver<DebuggerEvent>> = vec![];
     let mut aborted: HashMap<String, bool> = HashMap::new();
     let mut cmd_open = false;
+    // threads that were let into their look-up early (while the controller held the table, see "add" below)
+    let mut early_lookup: std::collections::HashSet<String> = Default::default();
     let t5 = Duration::from_secs(5);
     let steps = beh["hist"].as_array().unwrap();
     let mut problem: Option<Value> = None;
@@ -224,6 +226,35 @@ fn replay(beh: &Value, input: &str, cap: usize, ents: &[(String, usize)], fin: &
                 "add" | "del" | "delall" | "addall" => {
                     let r = st["data"].as_str().unwrap_or("").to_string();
                     ctx_tx.send(match act { "add" => Cmd::Add(r), "del" => Cmd::Del(r), "addall" => Cmd::AddAll, _ => Cmd::DelAll }).unwrap();
+                    // the command now holds the lock of the breakpoint table (it stands at BpHeld, inside the lock)
+                    if gates.wait_any("ctl", t5) != Some("BpHeld") {
+                        problem = Some(fail("breakpoint command did not reach its critical section within 5 s".into()));
+                        break 'steps;
+                    }
+                    // a parser thread that is about to look a rule up has to wait for the lock: let it try - it must not
+                    // get anywhere while the controller holds the table (sampled after a grace period)
+                    // (only a thread whose look-up is the very next thing the behaviour does after the release: letting it
+                    // try commits it to look up as soon as the table is free)
+                    let next_lookup: Option<String> = match (steps.get(i + 1), steps.get(i + 2)) {
+                        (Some(a), Some(b)) if a["act"] == "BpRelease" && b["who"] == "par" && b["act"] == "Lookup" => Some(format!("par{}", b["g"])),
+                        _ => None,
+                    };
+                    let at_lookup: Vec<String> = {
+                        let st = gates.m.lock().unwrap();
+                        st.waiting.iter().filter(|(k, n)| Some(*k) == next_lookup.as_ref() && **n == "Lookup").map(|(k, _)| k.clone()).collect()
+                    };
+                    for key in at_lookup {
+                        gates.release(&key);
+                        thread::sleep(Duration::from_millis(120));
+                        if let Some(n) = gates.wait_any(&key, Duration::from_millis(1)) {
+                            problem = Some(fail(format!("parser thread {key} looked a rule up and went on to {n} while the controller held the breakpoint table")));
+                            break 'steps;
+                        }
+                        early_lookup.insert(key);
+                    }
+                }
+                "BpRelease" => {
+                    gates.release("ctl");
                     if drain(&rep_rx, &mut receivers, t5).is_none() {
                         problem = Some(fail("breakpoint command did not return".into()));
                         break 'steps;
@@ -290,6 +321,15 @@ fn replay(beh: &Value, input: &str, cap: usize, ents: &[(String, usize)], fin: &
         } else {
             let key = format!("par{}", st["g"]);
             let mut guard = 0;
+            if act == "Lookup" && early_lookup.remove(&key) {
+                // already released: the look-up completes now that the table is free; it is over when the thread
+                // stands at its next point
+                if st["data"] != "panic" && gates.wait_any(&key, t5).is_none() {
+                    problem = Some(fail(format!("parser thread {key} did not finish its look-up within 5 s after the table was released")));
+                    break 'steps;
+                }
+                continue;
+            }
             loop {
                 match gates.wait_any(&key, t5) {
                     Some(n) if n == act => {
